@@ -54,3 +54,39 @@ Theorem any_partitioning_gives_the_generation_rules_document : forall cfg fe scf
   forall x, In x l <-> In x (spec_lines scfg fe d0 (spec_tables raw)).
 Proof. exact grouped_document_is_spec_document. Qed.
 Print Assumptions any_partitioning_gives_the_generation_rules_document.
+
+(* the same for documents WITH REFERENCING OBJECT MAPS (join conditions and R2RML's no-condition form), WITH QUOTED SUBJECT MAPS and WITH QUOTED
+   OBJECT MAPS: a group is materialised against the whole rule table (parent and quoted rules are looked up there, `rule_triples cfg fe rules`),
+   so any labelling of the rules gives the document of the generation rules (end-to-end theorems of C01 / C07 / C13 composed with GroupingP) *)
+From Morph Require Import Proofs.RowwiseP Proofs.JoinRuleP Proofs.DocJoinP Proofs.DocQuotedP Proofs.DocQuotedObjP Proofs.DocGroupedP.
+Theorem any_partitioning_with_joins_gives_the_generation_rules_document : forall cfg fe scfg raw (lab : rule -> label),
+  cfg_agree cfg scfg -> c_nquads cfg = s_nquads scfg -> s_na scfg = c_na cfg ->
+  forall d0 rules l,
+    forallb jplain_tm d0 = true -> nodupb (map t_id d0) = true -> parents_ok d0 = true -> normalise d0 = Ok rules -> nodupb (map r_id rules) = true ->
+    (forall rl, In rl rules -> simple_rule rl \/ join_rule_ok rules rl) ->
+    (forall rl rw n, In rl rules -> In rw (raw (r_src rl)) -> In n (rule_names rl ++ child_names rl ++ joins_child (r_ojoin rl)) -> assoc n rw <> None) ->
+    (forall src rw k, In rw (raw src) -> assoc (parent_prefix ++ k) rw = None) ->
+    materialize_grouped cfg fe rules (delivered cfg raw) lab = Ok l ->
+    forall x, In x l <-> In x (spec_lines scfg fe d0 (spec_tables raw)).
+Proof. exact grouped_document_is_spec_document_joins. Qed.
+Print Assumptions any_partitioning_with_joins_gives_the_generation_rules_document.
+Theorem any_partitioning_with_quoted_subjects_gives_the_generation_rules_document : forall cfg fe scfg raw (lab : rule -> label),
+  cfg_agree cfg scfg -> c_nquads cfg = s_nquads scfg -> s_na scfg = c_na cfg ->
+  forall d0 rules l,
+    quoted_doc d0 = true -> normalise d0 = Ok rules -> nodupb (map r_id rules) = true ->
+    (forall rl, In rl rules -> simple_rule rl \/ quoting_rule_ok rules rl) ->
+    (forall rl rw n, In rl rules -> In rw (raw (r_src rl)) -> In n (rule_ref_set fe rules rl) -> assoc n rw <> None) ->
+    materialize_grouped cfg fe rules (delivered cfg raw) lab = Ok l ->
+    forall x, In x l <-> In x (spec_lines scfg fe d0 (spec_tables raw)).
+Proof. exact grouped_document_is_spec_document_quoted. Qed.
+Print Assumptions any_partitioning_with_quoted_subjects_gives_the_generation_rules_document.
+Theorem any_partitioning_with_quoted_objects_gives_the_generation_rules_document : forall cfg fe scfg raw (lab : rule -> label),
+  cfg_agree cfg scfg -> c_nquads cfg = s_nquads scfg -> s_na scfg = c_na cfg ->
+  forall d0 rules l,
+    qobj_doc d0 = true -> normalise d0 = Ok rules -> nodupb (map r_id rules) = true ->
+    (forall rl, In rl rules -> simple_rule rl \/ qobj_rule_ok rules rl) ->
+    (forall rl rw n, In rl rules -> In rw (raw (r_src rl)) -> In n (rule_ref_set fe rules rl) -> assoc n rw <> None) ->
+    materialize_grouped cfg fe rules (delivered cfg raw) lab = Ok l ->
+    forall x, In x l <-> In x (spec_lines scfg fe d0 (spec_tables raw)).
+Proof. exact grouped_document_is_spec_document_qobj. Qed.
+Print Assumptions any_partitioning_with_quoted_objects_gives_the_generation_rules_document.
